@@ -7,7 +7,7 @@ from .. import gen, lib, ref
 from ..lib import call
 
 PROP = "C18"
-PLAN = {"quick": (3200, 300), "thorough": (144000, 3000)}
+PLAN = {"quick": (3200, 300), "thorough": (80000, 3000)}
 LARGE = (0.03, 64)  # (share, largest size) of the large class of gen.kv: 17+ control points, degree up to 8
 RULE = ("cases: generator = (bezier | integer | uniform | random | weight, degree 0..5, npts up to 60 (quick) / 400 "
         "(thorough), cls in int / float / Fraction), random() both with seeded draws and with weight vectors injected at "
